@@ -84,6 +84,7 @@ type GenesisSpec struct {
 	VestingModuleBalance sdk.Int
 	// ExtraBalances are added to bank genesis (with BaseAccounts created when absent)
 	ExtraBalances []banktypes.Balance
+	AccExtraCoins sdk.Coins // added to the genesis balance of every key account
 	ExtraAccounts []authtypes.GenesisAccount
 	AccFunds      sdk.Int  // per key account, default 10^24
 	OmitModules   []string // genesis sections to leave out (the module's InitGenesis is then not run)
@@ -174,7 +175,7 @@ func BuildGenesis(a *c4eapp.App, enc appparams.EncodingConfig, spec GenesisSpec)
 	for i := 0; i < NumAcc; i++ {
 		acc := KeyAcc(i)
 		genAccs = append(genAccs, authtypes.NewBaseAccount(acc.Addr, nil, 0, 0))
-		balances = append(balances, banktypes.Balance{Address: acc.Addr.String(), Coins: sdk.NewCoins(sdk.NewCoin(Denom, funds))})
+		balances = append(balances, banktypes.Balance{Address: acc.Addr.String(), Coins: sdk.NewCoins(sdk.NewCoin(Denom, funds)).Add(spec.AccExtraCoins...)})
 	}
 	genAccs = append(genAccs, spec.ExtraAccounts...)
 	balances = append(balances, spec.ExtraBalances...)
